@@ -470,3 +470,29 @@ Print Assumptions C03_kelim_sub_binary_is_elim_sub.
 Print Assumptions C03_kshape_kemb.
 Print Assumptions C03_kelim_nonvacuous.
 (* x-kelim end ---------------------------------------------------------------------------------------------------- *)
+
+(* x-kelim (caches) begin -----------------------------------------------------------------------------------------
+   the K-ary elimination keeps the feasibility caches sound (Pwl/KElimCache.v, the any-K form of C05_elim_marks /
+   C05_elim_witnesses; stated here because Props/C03.v is the file of the K-ary elimination): the Infeasible marks below
+   the root of the RESULT exclude x, and every witness list of the result is non-empty and lies in the closed path
+   polytope of its node in the RESULT tree within the containment tolerance (a forwarded node has a shorter path). *)
+From AT Require KElimCache.
+Theorem C03_kelim_keeps_marks : forall o tol K t x, osound o x -> KElimEval.kshape K t -> KElimEval.kmarks_kids x [] t ->
+  KElimEval.kmarks_kids x [] (fst (KElim.kelim o tol K t)).
+Proof. exact KElimCache.kelim_marks. Qed.
+Theorem C03_kelim_sub_keeps_marks : forall o tol K x, osound o x ->
+  forall t, KElimEval.kshape K t -> forall isroot q st k, KElimEval.kmarks_kids x q t -> (st = Infeas -> ~ in_rows q x) ->
+  KPruneEval.kmarks x q (fst (KElim.kelim_sub o tol K isroot q st t k)).
+Proof. exact KElimCache.kelim_sub_marks. Qed.
+Theorem C03_kelim_keeps_witnesses : forall o tol K t, mir_sound o tol -> KElimCache.kwit_ok tol [] t ->
+  KElimCache.kwit_ok tol [] (fst (KElim.kelim o tol K t)).
+Proof. exact KElimCache.kelim_wit. Qed.
+Theorem C03_kelim_sub_keeps_witnesses : forall o tol K, mir_sound o tol ->
+  forall t isroot q st k, KElimCache.kwit_kids tol q t -> st_wit tol q st ->
+  KElimCache.kwit_ok tol q (fst (KElim.kelim_sub o tol K isroot q st t k)).
+Proof. exact KElimCache.kelim_sub_wit. Qed.
+Print Assumptions C03_kelim_keeps_marks.
+Print Assumptions C03_kelim_sub_keeps_marks.
+Print Assumptions C03_kelim_keeps_witnesses.
+Print Assumptions C03_kelim_sub_keeps_witnesses.
+(* x-kelim (caches) end ------------------------------------------------------------------------------------------- *)
